@@ -55,6 +55,7 @@ func init() {
 		mutation{"fingerprint-rotate-xor-fold", "chord/local_tasks.go", "	hasher := xxh3.New()\n	buf := make([]byte, 8)\n	for _, node := range nodes {\n		if node == nil {\n			continue\n		}\n		binary.BigEndian.PutUint64(buf, node.ID())\n		hasher.Write(buf)\n	}\n	return hasher.Sum64()", "	var sum uint64\n	for _, node := range nodes {\n		if node == nil {\n			continue\n		}\n		sum = bits.RotateLeft64(sum, 17) ^ node.ID()\n	}\n	_, _ = xxh3.Hash, binary.BigEndian\n	return sum", "list-fingerprint"},
 		mutation{"fingerprint-fnv-fold", "chord/local_tasks.go", "	hasher := xxh3.New()\n	buf := make([]byte, 8)\n	for _, node := range nodes {\n		if node == nil {\n			continue\n		}\n		binary.BigEndian.PutUint64(buf, node.ID())\n		hasher.Write(buf)\n	}\n	return hasher.Sum64()", "	sum := uint64(14695981039346656037)\n	for _, node := range nodes {\n		if node == nil {\n			continue\n		}\n		sum = (sum ^ node.ID()) * 1099511628211\n		sum ^= sum >> 29\n	}\n	_, _ = xxh3.Hash, binary.BigEndian\n	return sum", "!list-fingerprint"},
 		mutation{"fingerprint-skips-first-entry", "chord/local_tasks.go", "	for _, node := range nodes {\n		if node == nil {\n			continue\n		}\n		binary.BigEndian.PutUint64(buf, node.ID())", "	for i, node := range nodes {\n		if node == nil || i == 0 {\n			continue\n		}\n		binary.BigEndian.PutUint64(buf, node.ID())", "list-fingerprint"},
+		mutation{"fingerprint-stored-after-unlock", "chord/local_tasks.go", "		n.successorsMu.Lock()\n		n.updateSuccessorsList(listHash, succList)\n		n.successorsMu.Unlock()", "		n.successorsMu.Lock()\n		n.successors = succList\n		n.successorsMu.Unlock()\n		n.succListHash.Store(listHash)", "guarded-write"},
 		mutation{"fix-finger-stops-at-self", "chord/local_tasks.go", "		if changed {\n			fixed = append(fixed, k)\n		}\n	}", "		if changed {\n			fixed = append(fixed, k)\n		} else if k > 1 {\n			break\n		}\n	}", "finger-coverage"},
 		mutation{"fix-finger-skips-on-error-before-fix", "chord/local_tasks.go", "		changed, err := n.fixK(k)\n		if err != nil {\n			continue\n		}", "		if n.checkNodeState(false) != nil {\n			continue\n		}\n		changed, err := n.fixK(k)\n		if err != nil {\n			continue\n		}", "finger-coverage"},
 		mutation{"check-predecessor-without-cas", "chord/local_tasks.go", "		if n.predecessor == pre {\n			n.predecessor = nil\n			n.logger.Info(\"Discovered dead predecessor\",\n				zap.Object(\"old\", pre.Identity()),\n				zap.String(\"new\", \"nil\"),\n			)\n		}", "		n.predecessor = nil\n		n.logger.Info(\"Discovered dead predecessor\",\n			zap.Object(\"old\", pre.Identity()),\n			zap.String(\"new\", \"nil\"),\n		)", "snapshot-cas"},
@@ -357,7 +358,7 @@ func runC02(c *Ctx) {
 	}
 	tables := []wr{
 		{"chord.LocalNode.predecessor", "predecessorMu", map[string]bool{"chord.(LocalNode).Join": true, "chord.(LocalNode).Notify": true, "chord.(LocalNode).RequestToJoin": true, "chord.(LocalNode).checkPredecessor": true}, 4},
-		{"chord.LocalNode.successors", "successorsMu", map[string]bool{"chord.(LocalNode).Create": true, "chord.(LocalNode).Join": true, "chord.(LocalNode).updateSuccessorsList": true}, 3},
+		{"chord.LocalNode.successors", "successorsMu", map[string]bool{"chord.(LocalNode).Create": true, "chord.(LocalNode).Join": true, "chord.(LocalNode).updateSuccessorsList": true}, 1},
 		{"chord.LocalNode.surrogate", "surrogateMu", map[string]bool{"chord.(LocalNode).Notify": true, "chord.(LocalNode).RequestToJoin": true, "chord.(LocalNode).executeLeave": true}, 3},
 	}
 	for _, t := range tables {
@@ -491,6 +492,21 @@ func runC02(c *Ctx) {
 	snapshotCASRule(c)
 	fingerCoverageRule(c)
 	listFingerprintRule(c)
+	// the fingerprint stabilize compares against is replaced together with the list it
+	// describes: every succListHash.Store runs with successorsMu write-held (two rounds
+	// interleaving between the list write and the hash write leave a stale list paired
+	// with the fresh list's hash - every later round then skips the update)
+	nfp := 0
+	for _, fn := range c.AllFuncs("chord") {
+		for _, call := range fn.Calls(true, func(call *ast.CallExpr) bool {
+			se, ok := call.Fun.(*ast.SelectorExpr)
+			return ok && se.Sel.Name == "Store" && fn.enclosing(call).FieldKey(se.X) == "chord.LocalNode.succListHash"
+		}) {
+			nfp++
+			c.Ob("guarded-write", "chord.LocalNode.succListHash.Store<-"+fn.root().Name, call.Pos(), lockHeldAt(fn, call, "successorsMu", 'W'), "the successor-list fingerprint is stored with successorsMu write-held, in the critical section that replaces the list")
+		}
+	}
+	c.Floor("succListHash stores", nfp, 1)
 }
 
 func isLenCmp(f *Fn, e ast.Expr, op token.Token, val string) bool {
